@@ -26,7 +26,7 @@ func init() {
 		Rule: "scripted parser.Parser streams generated from abstract documents (nesting, namespace declarations incl. overrides of inherited prefixes and repeats within one element, attributes, text incl. adjacent text, comments, PIs, top-level non-element nodes, surplus end events at the root, flat streams up to 10^5..10^7 events, chains up to depth 10^4) -> store.CreateInMemory; " +
 			"oracles: (1) parallel walk tree==document, every cursor reachable once; (2) Pos() unique, 0 only for root, strictly increasing in document order element<ns<attrs<children<following; (3) Parent() of every listed cursor is the lister; (4) namespace prefix map per element = inherited overridden by prefix; " +
 			"(5) trace monitor: call depth sampled inside Pull() <= 96 + 8*nesting depth; (6) child process with 64 MiB max stack survives the flat builds. distinct_nontrivial = distinct document shape signatures with >= 3 nodes",
-		Assumptions: []string{"runtime.Callers depth is a faithful proxy for goroutine stack use", "a Namespace event with empty prefix and empty value is not generated (its meaning is not fixed by the Parser contract)"},
+		Assumptions: []string{"runtime.Callers depth is a faithful proxy for goroutine stack use", "a Namespace event with empty prefix and empty value means 'no default namespace here' (xmlns=\"\"): it overrides an inherited default namespace by prefix and is itself not a namespace node — the meaning the store documents since its repair"},
 		NCases:      func(tier string) int { return map[string]int{"quick": 60000, "thorough": 2000000}[tier] },
 		Case:        c10Case,
 		Post:        c10Post,
@@ -71,6 +71,9 @@ func c10Doc(g *rng.R, tier string) (*adoc.Doc, []adoc.Event) {
 				}
 			}
 		}
+	}
+	if g.P(40) {
+		adoc.NSQuirks(g, d, true)
 	}
 	d.Finish()
 	evs := d.Events()
